@@ -10,6 +10,7 @@ META={
  "C20":("exploration","Insert sequences (incl. values whose Serialize fails midway and clones of half-built builders) are applied to both builders; the emitted text is re-read by an independent reader and compared with the to_value images of the successful inserts; all tuple arities and blanket impls are covered.","4/C20","proptest operation sequences + round-trip through own JSON reader","serde_json::to_value is the reference image; a builder whose only inserts failed may give None or an empty container"),
  "C01":("exploration","Every generated message (constructed requests x mutators, token/member enumerations, arbitrary bytes) is sent through the real tower service (HTTP) and through a real hyper+soketto WebSocket connection in memory, and judged by an independent JSON-RPC classifier and a model of the harness handlers; member and token enumerations are exhaustive up to a small length, everything else is sampled.","4/C01","proptest + bounded exhaustive enumeration; differential vs own JSON-RPC classifier over own strict JSON reader; HTTP==WS metamorphic relation","in-memory transports (no TCP); duplicate member names / non-UTF-8 / lone surrogates / form feeds / >127 leading blanks get only the universal invariants; serde_json, hyper, soketto, tokio paused-clock idleness trusted"),
  "C02":("exploration","Generated batches (all entry classes, all permutations of small batches, all batch configurations, both transports, subscription entries driven by handler actors) are judged entry by entry: classification by an independent classifier, expected replies from a handler model and from sending the same entry alone, bipartite matching of replies to entries, invocation-log multiset. Sampled exploration.","4/C02","proptest + permutation enumeration of small batches; model + metamorphic (entry alone == entry in batch) oracle","reply order not required; entries with duplicate member names only get universal invariants; in-memory transports"),
+ "C19":("exploration","HTTP requests are fed to the real tower service with the body as an explicit frame sequence: the method / content-type gates are checked against a reference reading of the six accepted spellings, and every accepted request is compared (status and body) with the same bytes sent as one chunk with Content-Length; all cut pairs of a set of short bodies are enumerated, other cuts sampled.","4/C19","proptest + exhaustive cut enumeration of short bodies; metamorphic relation (any framing == single chunk)","requests the http crate refuses to build are skipped; hyper's own wire-level chunk decoding is not in the loop (frames are injected above it)"),
 }
 HOOK_COMMITS=["f958b76"]
 NOT_BUILT="check not built yet in this session (work in progress; DESIGN.md section 9 gives the order)"
